@@ -102,6 +102,27 @@ def chargeAdductsMassStr (mono : Bool) (s : List Nat) : Except Err Rat :=
   if s = [43, 72, 43] then pure Gen.protonMass   -- '+H+'
   else sumM (adductMass mono) (splitComma s)
 
+/-- `_parse_adduct_mass(adduct, precision, monoisotopic)` called on its own: only the non-electron branch rounds -/
+def adductMassP (mono : Bool) (s : List Nat) (precision : Option Int) : Except Err Rat := do
+  let (cnt, sym, ch) ← parseIonElements s
+  if sym = kE then pure ((cnt : Rat) * Gen.electronMass)
+  else
+    let tbl := if mono then isotopicMasses else averageMasses
+    match lookup sym tbl with
+    | none => .error .keyError
+    | some m => pure (roundOpt ((cnt : Rat) * m - (ch : Rat) * Gen.electronMass) precision)
+
+/-- `_parse_charge_adducts_mass(value, precision, monoisotopic)` called on its own (`+H+` is answered unrounded) -/
+def chargeAdductsMassP (mono : Bool) (v : ModVal) (precision : Option Int) : Except Err Rat :=
+  match v with
+  | .str s =>
+    let c := s.map Char.toNat
+    if c = [43, 72, 43] then pure Gen.protonMass
+    else do
+      let m ← sumM (adductMass mono) (splitComma c)
+      pure (roundOpt m precision)
+  | _ => .error .typeError
+
 /-- `_parse_charge_adducts_mass` on a `Mod`/value: the value must be a string -/
 def chargeAdductsMass (mono : Bool) : ModVal → Except Err Rat
   | .str s => chargeAdductsMassStr mono (s.map Char.toNat)
